@@ -251,21 +251,30 @@ def run_harness(binary, cases, procs=NPROC, timeout=1200):
     chunks = [cases[i::procs] for i in range(procs)]
 
     def one(chunk):
-        data = "\n".join(json.dumps(c) for c in chunk) + "\n"
-        p = subprocess.run([binary], input=data, stdout=subprocess.PIPE, stderr=subprocess.PIPE,
-                           text=True, timeout=timeout)
         outs = {}
-        for line in p.stdout.split("\n"):
-            if line.strip():
-                o = json.loads(line)
-                outs[o["id"]] = o
-        if p.returncode != 0:
-            # the process died (abort / stack overflow): mark the first unanswered case
-            for c in chunk:
-                if c["id"] not in outs:
-                    outs[c["id"]] = {"id": c["id"], "crash": "harness exited with %d: %s"
-                                     % (p.returncode, p.stderr[-300:])}
-                    break
+        todo = list(chunk)
+        while todo:
+            data = "\n".join(json.dumps(c) for c in todo) + "\n"
+            try:
+                p = subprocess.run([binary], input=data, stdout=subprocess.PIPE, stderr=subprocess.PIPE,
+                                   text=True, timeout=timeout)
+                rc, so, se = p.returncode, p.stdout, p.stderr
+            except subprocess.TimeoutExpired as e:
+                rc, so, se = -9, (e.stdout or b"").decode(errors="replace") if isinstance(e.stdout, bytes) else (e.stdout or ""), "timeout"
+            for line in so.split("\n"):
+                if line.strip():
+                    try:
+                        o = json.loads(line)
+                    except ValueError:
+                        continue
+                    outs[o["id"]] = o
+            rest = [c for c in todo if c["id"] not in outs]
+            if not rest:
+                break
+            # the process died (abort, stack overflow, timeout) on the first unanswered case
+            bad = rest[0]
+            outs[bad["id"]] = {"id": bad["id"], "crash": "harness process ended with status %s: %s" % (rc, se[-300:])}
+            todo = rest[1:]
         return outs
 
     res = {}
@@ -434,3 +443,38 @@ TRUSTED_BASE = [
     "correspondence glue: Python generators/renderers (gen/), Rust harness (harness/), observation parser",
     "external libraries as they are: syn, proc-macro2 (fallback spans with span-locations), quote, ident_case, strsim, std",
 ]
+
+
+def decide(R, terms, bad, errors, describe, model_body, key_fn, size_fn, header, results, cases,
+           failed_holds, failed_agree, max_report=3):
+    """Common decision step (DESIGN.md 2.1): cases whose property predicate fails on the
+    implementation's own output are violations with that case as replay; disagreements with the
+    model while the predicate holds everywhere are reported as no-failing-input-found."""
+    for e in errors[:3]:
+        R.violation("coq-eval", "model evaluation failed: " + e[:1500], {"failed": "coqc cases", "log": e},
+                    found_input=False)
+    holds_fail = [i for i, (a, h) in bad.items() if not h]
+    agree_fail = [i for i, (a, h) in bad.items() if h and not a]
+
+    def replay_of(i, failed):
+        model = coq_print(R.prop, header, "Definition c := %s.\n%s" % (terms[i], model_body))
+        return {"case": cases[i], "observation": results.get(cases[i]["id"]), "model": model[-8000:],
+                "agree": bad[i][0], "holds": bad[i][1], "failed": failed}
+
+    seen_keys = {}
+    for i in sorted(holds_fail, key=size_fn):
+        k = key_fn(i)
+        seen_keys.setdefault(k, []).append(i)
+    for k, idxs in seen_keys.items():
+        for i in idxs[:max_report if len(seen_keys) == 1 else 1]:
+            R.violation(k, "%s fails on the implementation's own output for %s" % (R.prop, describe(i)[:800]),
+                        replay_of(i, failed_holds))
+    if agree_fail and not holds_fail:
+        i = min(agree_fail, key=size_fn)
+        R.violation("correspondence",
+                    "model and implementation disagree on %d cases (smallest: %s) but the property predicate "
+                    "holds on every observed output" % (len(agree_fail), describe(i)[:800]),
+                    replay_of(i, failed_agree), found_input=False)
+    R.coverage["disagreements"] = len(agree_fail)
+    R.coverage["property_failures"] = len(holds_fail)
+    return holds_fail, agree_fail
